@@ -9,7 +9,7 @@ GOENV = dict(os.environ, GOFLAGS='-mod=mod', GOPROXY='off', GOSUMDB='off', GOTOO
 WIRE_PKG = 'github.com/google/wire/internal/wire'
 MAIN_PKG = 'github.com/google/wire/cmd/wire'
 PKG_DIR = {WIRE_PKG: 'internal/wire', MAIN_PKG: 'cmd/wire'}
-DEFAULT_INTERP = ['go/types', 'golang.org/x/tools/go/types/typeutil', 'errors']
+DEFAULT_INTERP = ['go/types', 'golang.org/x/tools/go/types/typeutil', 'errors', 'go/token', 'go/ast']
 
 
 def log(*a):
